@@ -30,7 +30,7 @@ def _shard(job):
     name, args, path = job
     t0 = time.time()
     with open(path, "w") as fo:
-        p = subprocess.run([os.path.join(vlib.BUILD, "crash")] + [str(a) for a in args], stdout=fo,
+        p = subprocess.run([vlib.exe("crash")] + [str(a) for a in args], stdout=fo,
                            stderr=subprocess.PIPE, env=vlib.GOENV, timeout=3400)
     t1 = time.time()
     with open(path) as fi:
